@@ -193,6 +193,9 @@ pub struct SessionHistory {
     pub ops: Vec<(u8, String)>,
     /// run an extra execute_session on every session at the very end (robustness only)
     pub extra_execute: bool,
+    /// bit i set: session i is built with Session::default() instead of Session::new()
+    #[serde(default)]
+    pub default_ctor: u8,
 }
 
 pub struct Sessions;
@@ -212,7 +215,7 @@ impl Prop for Sessions {
         let today0 = chrono::Utc::now().date_naive();
         let calc = build_calc(&cfg);
         let reference = build_calc(&cfg);
-        let mut sessions: Vec<smartcalc::Session> = (0..n).map(|_| smartcalc::Session::new()).collect();
+        let mut sessions: Vec<smartcalc::Session> = (0..n).map(|i| if (c.default_ctor >> i) & 1 == 1 { smartcalc::Session::default() } else { smartcalc::Session::new() }).collect();
         let mut executed: Vec<Vec<String>> = vec![vec![]; n];
         let mut clean: Vec<Vec<String>> = vec![vec![]; n];
         let mut bound: Vec<std::collections::BTreeSet<String>> = vec![Default::default(); n];
@@ -325,7 +328,7 @@ impl Prop for Sessions {
                 }
             }
         }
-        acc.finish(rendered).nt(differing_counts && cross_text_variable).class_if(differing_counts, "texts-of-different-line-counts").class_if(cross_text_variable, "variable-from-an-earlier-text-used").class_if(n >= 2, "two-or-more-sessions").class_if(c.ops.len() >= 6, "six-or-more-texts").class_if(dropped_failed > 0, "failed-lines-dropped-from-the-reference")
+        acc.finish(rendered).nt(differing_counts && cross_text_variable).class_if(differing_counts, "texts-of-different-line-counts").class_if(cross_text_variable, "variable-from-an-earlier-text-used").class_if(n >= 2, "two-or-more-sessions").class_if(c.default_ctor & ((1u8 << n.min(7)) - 1) != 0, "session-built-with-Session::default()").class_if(c.ops.len() >= 6, "six-or-more-texts").class_if(dropped_failed > 0, "failed-lines-dropped-from-the-reference")
     }
 }
 
@@ -353,6 +356,13 @@ pub fn session_text() -> impl Strategy<Value = String> {
 }
 
 pub fn session_history_strategy(max: usize) -> impl Strategy<Value = SessionHistory> {
+    (session_history_strategy_new(max), prop_oneof![2 => Just(0u8), 1 => 0u8..8]).prop_map(|(mut h, d)| {
+        h.default_ctor = d;
+        h
+    })
+}
+
+fn session_history_strategy_new(max: usize) -> impl Strategy<Value = SessionHistory> {
     // with probability ~1/6 an op sets the text that session executed last once more (unchanged, or with a trailing
     // blank / line separator): "each time a new text is set" includes setting an equal text
     (1u8..=3, prop::collection::vec((0u8..3, session_text(), 0u8..18), 2..max), any::<bool>()).prop_map(|(sessions, ops, extra_execute)| {
@@ -370,22 +380,22 @@ pub fn session_history_strategy(max: usize) -> impl Strategy<Value = SessionHist
             last[si] = Some(text.clone());
             out.push((s, text));
         }
-        SessionHistory { sessions, ops: out, extra_execute }
+        SessionHistory { sessions, ops: out, extra_execute, default_ctor: 0 }
     })
 }
 
 pub fn regressions() -> Vec<SessionHistory> {
     vec![
         // F40: a 3-line text, then a 1-line text
-        SessionHistory { sessions: 1, ops: vec![(0, "x = 5\nx + 1\nx * 2".into()), (0, "x".into())], extra_execute: false },
-        SessionHistory { sessions: 1, ops: vec![(0, "x = 5".into()), (0, "x + 1\nx * 2\nx = x + 1".into()), (0, "x\n\nx".into())], extra_execute: true },
+        SessionHistory { sessions: 1, ops: vec![(0, "x = 5\nx + 1\nx * 2".into()), (0, "x".into())], extra_execute: false, default_ctor: 0 },
+        SessionHistory { sessions: 1, ops: vec![(0, "x = 5".into()), (0, "x + 1\nx * 2\nx = x + 1".into()), (0, "x\n\nx".into())], extra_execute: true, default_ctor: 0 },
         // two sessions do not share variables
-        SessionHistory { sessions: 2, ops: vec![(0, "x = 5".into()), (1, "x + 1".into()), (1, "x = 7".into()), (0, "x".into()), (1, "x".into())], extra_execute: false },
+        SessionHistory { sessions: 2, ops: vec![(0, "x = 5".into()), (1, "x + 1".into()), (1, "x = 7".into()), (0, "x".into()), (1, "x".into())], extra_execute: false, default_ctor: 0 },
     ]
 }
 
 pub fn run(ctx: &Ctx) {
-    ctx.rule("(a) calculator histories: a freshly built long-lived calculator evaluates 1-30 texts drawn from all other generators plus token soup (failing and rule-heavy lines included), then a probe text; in half of the histories the calculator is switched to other configurations through the public setters in between and back before the probe; (a') related histories: the texts before the probe are variants of the probe itself - same sentence, units, currencies, zones and names, operands replaced by 0, 1, 2, 0.5, 12, 31, 60, 100, 1000, 1e9 - mixed with unrelated texts; oracle: status, every slot (None / error text / output / AST value) and the highlight tokens of the probe equal those on a fresh calculator of the same configuration that evaluates only the probe; (b) session histories over 1-3 sessions sharing one calculator: set_text(text of 1-5 lines incl. empty lines, assignments, CRLF; about one op in six sets the session's previous text again, unchanged or with a trailing blank / line separator) + execute_session; oracle: status true, slot count = line count of the text just set, slots = the last |T| slots of a one-shot execute of the concatenation of all texts that session has executed (fresh calculator, fresh session), and also of that concatenation WITHOUT the lines that failed to evaluate (a failed line leaves no trace); non-trivial = (a) history >= 3 texts and the probe yields a value, (b) texts of different line counts on one session and a variable from an earlier text used in a later one");
+    ctx.rule("(a) calculator histories: a freshly built long-lived calculator evaluates 1-30 texts drawn from all other generators plus token soup (failing and rule-heavy lines included), then a probe text; in half of the histories the calculator is switched to other configurations through the public setters in between and back before the probe; (a') related histories: the texts before the probe are variants of the probe itself - same sentence, units, currencies, zones and names, operands replaced by 0, 1, 2, 0.5, 12, 31, 60, 100, 1000, 1e9 - mixed with unrelated texts; oracle: status, every slot (None / error text / output / AST value) and the highlight tokens of the probe equal those on a fresh calculator of the same configuration that evaluates only the probe; (b) session histories over 1-3 sessions (built with Session::new() or Session::default()) sharing one calculator: set_text(text of 1-5 lines incl. empty lines, assignments, CRLF; about one op in six sets the session's previous text again, unchanged or with a trailing blank / line separator) + execute_session; oracle: status true, slot count = line count of the text just set, slots = the last |T| slots of a one-shot execute of the concatenation of all texts that session has executed (fresh calculator, fresh session), and also of that concatenation WITHOUT the lines that failed to evaluate (a failed line leaves no trace); non-trivial = (a) history >= 3 texts and the probe yields a value, (b) texts of different line counts on one session and a variable from an earlier text used in a later one");
     ctx.assume("lines mentioning now are not generated; execute_session without a preceding set_text is exercised only at the end of a session's life (no assertion beyond not panicking)");
     ctx.run_table(&Sessions, "regressions", regressions(), false);
     let (h, s) = match ctx.tier {
